@@ -288,6 +288,14 @@ class Check:
         return None
     def canon(self, s):
         return s
+    def same(self, impl_out, model_out):
+        # the model does not decompress/decrypt every container: it then ends with SKIP and only the part before is compared
+        if model_out == "SKIP-AES":
+            return True
+        if model_out is not None and impl_out is not None and model_out.endswith(" SKIP]"):
+            pre = model_out[:-len("SKIP]")]
+            return impl_out.startswith(pre)
+        return self.canon(impl_out) == self.canon(model_out)
 
     def write_replay(self, n, payload):
         os.makedirs(REPLAY, exist_ok=True)
@@ -337,6 +345,7 @@ class Check:
             self.finish(cov, [(path, " no-failing-input-found")], ass, broken + ["harness build"])
             return 1
         # 4. cases
+        self.exes, self.model = exes, model
         cases = self.gen()
         lines = [c[0] for c in cases]
         cov["evaluations"] = len(lines)
@@ -358,9 +367,9 @@ class Check:
                 if w:
                     why = "[%s] %s" % (prof, w)
                     break
-            if mouts is not None and why is None:
+            if mouts is not None and why is None and not (isinstance(meta, dict) and meta.get("impl_only")):
                 for prof in self.profiles:
-                    if self.canon(outs[prof][i]) != self.canon(mouts[i]):
+                    if not self.same(outs[prof][i], mouts[i]):
                         disagree.append((i, prof))
                         break
             if why:
